@@ -520,6 +520,9 @@ def run(ctx):
 
 def replay(ctx, data):
     mode = tuple(data["mode"])
+    if data.get("longdouble"):
+        r = longdouble_worker(mode)
+        return [r["viol"][1]] if r["viol"] else []
     if "long" in data:
         r = long_history_worker((mode,) + tuple(data["long"]))
         return [r["viol"][1]] if r["viol"] else []
